@@ -322,11 +322,21 @@ fn parse_compressed<'a>(input: &'a [u8], cache: &AtomCache) -> NomResult<'a, Own
     }
 
     let mut decoder = ZlibDecoder::new(rest);
-    let mut decompressed = Vec::with_capacity(uncompressed_size as usize);
+    // Deflate cannot expand by more than about 1032:1, so the input bounds what is worth
+    // reserving up front; never inflate beyond the declared size.
+    let mut decompressed =
+        Vec::with_capacity((uncompressed_size as usize).min(rest.len().saturating_mul(1032)));
     decoder
+        .by_ref()
+        .take(uncompressed_size as u64 + 1)
         .read_to_end(&mut decompressed)
         .map_err(|_| nom::Err::Failure(NomError::new(input, ErrorKind::Fail)))?;
+    if decompressed.len() != uncompressed_size as usize {
+        return Err(nom::Err::Failure(NomError::new(input, ErrorKind::Verify)));
+    }
     let consumed = decoder.total_in() as usize;
+    // release the inflate state before descending into the (possibly again compressed) term
+    drop(decoder);
 
     let owned_term = match parse_term(&decompressed, cache) {
         Ok((_remaining, term)) => term,
